@@ -31,27 +31,30 @@ var Variants = []Variant{"expired_inflight", "full", "expired_message"}
 
 // Result is what was observed.
 type Result struct {
-	Variant      Variant
-	V            byte
-	ViaAPI       bool
-	Accepted     []string          // payloads published to the sleeper's subscription and acknowledged to their publisher
-	Received     map[string]int    // payload -> copies the sleeper received after it came back (both brokers)
-	ReceivedOld  []string          // what it received (and did not acknowledge) on the first broker
-	HookDrops    map[string]string // payload -> reason reported through OnMsgDropped on the second broker
-	HookDropN    map[string]int
-	Client       server.ClientStats
-	ClientOK     bool
-	Global       server.GlobalStats
-	StartGlobal  server.GlobalStats // right after the restart, before anybody connected
-	StartStored  int                // sessions in the store at that moment
-	EndStored    int                // sessions in the store at the final quiescent point
-	EndOnline    int                // connections the scenario holds at that point
-	PublishPanic string // recovered panic of Publisher.Publish
-	ConnectErr   string // a fresh client could not connect after the publishes
-	PublisherErr string // the wire publisher lost its connection / got no ack
-	StopErr      string
-	ResumeErr    string
-	Notes        []string
+	Variant       Variant
+	V             byte
+	ViaAPI        bool
+	Accepted      []string          // payloads published to the sleeper's subscription and acknowledged to their publisher
+	Received      map[string]int    // payload -> copies the sleeper received after it came back (both brokers)
+	ReceivedOld   []string          // what it received (and did not acknowledge) on the first broker
+	HookDrops     map[string]string // payload -> reason reported through OnMsgDropped on the second broker
+	HookDropN     map[string]int
+	Client        server.ClientStats
+	ClientOK      bool
+	Global        server.GlobalStats
+	StartGlobal   server.GlobalStats // right after the restart, before anybody connected
+	StartStored   int                // sessions in the store at that moment
+	StartQueued   int                // elements of the sleeper's stored queue at that moment (ground truth from the store)
+	StartClient   server.ClientStats // the sleeper's statistics at that moment
+	StartClientOK bool
+	EndStored     int    // sessions in the store at the final quiescent point
+	EndOnline     int    // connections the scenario holds at that point
+	PublishPanic  string // recovered panic of Publisher.Publish
+	ConnectErr    string // a fresh client could not connect after the publishes
+	PublisherErr  string // the wire publisher lost its connection / got no ack
+	StopErr       string
+	ResumeErr     string
+	Notes         []string
 }
 
 const step = 15 * time.Second
@@ -190,6 +193,8 @@ func Run(variant Variant, v byte, viaAPI bool, extra int) (*Result, error) {
 	defer stop()
 	res.StartGlobal = b2.Srv.StatsManager().GetGlobalStats()
 	res.StartStored = storedSessions(b2)
+	res.StartQueued = len(env.Srv.Snapshot().Lists["queue:sleeper"])
+	res.StartClient, res.StartClientOK = b2.Srv.StatsManager().GetClientStats("sleeper")
 	// new messages for the restored session
 	var pub2 *wire.Client
 	if !viaAPI {
@@ -353,6 +358,10 @@ func (r *Result) Conservation() (sigs, whats []string) {
 	if sg.ActiveCurrent != 0 || sg.InactiveCurrent != uint64(r.StartStored) {
 		add("restored.session_gauges_at_start:"+tag, fmt.Sprintf("right after the restart the store holds %d sessions and nobody is connected: ActiveCurrent=%d InactiveCurrent=%d", r.StartStored, sg.ActiveCurrent, sg.InactiveCurrent))
 	}
+	// Queue gauges right after the restart are observed, not judged: statistics are not persisted (stats.go says so
+	// where it guards the gauges against going negative), the stored messages of a session that has not come back yet
+	// are in no gauge. The property quantifies over client workloads; what the gauges show before the first client
+	// acts on a restarted broker is outside it (see GaugeGapAtStart).
 	eg := r.Global.ConnectionStats
 	if eg.ActiveCurrent != uint64(r.EndOnline) || eg.InactiveCurrent != uint64(r.EndStored-r.EndOnline) {
 		add("restored.session_gauges:"+tag, fmt.Sprintf("%d connections are up and the store holds %d sessions: ActiveCurrent=%d InactiveCurrent=%d", r.EndOnline, r.EndStored, eg.ActiveCurrent, eg.InactiveCurrent))
@@ -367,6 +376,14 @@ func (r *Result) Conservation() (sigs, whats []string) {
 		add("restored.sent_total:"+tag, fmt.Sprintf("the sleeper received %d PUBLISH packets from the restarted broker, Qos1.SentTotal = %d", sum(r.Received), got))
 	}
 	return
+}
+
+// GaugeGapAtStart is the number of stored messages that no gauge showed right after the restart.
+func (r *Result) GaugeGapAtStart() int {
+	if d := r.StartQueued - int(r.StartGlobal.MessageStats.QueuedCurrent); d > 0 {
+		return d
+	}
+	return 0
 }
 
 func storedSessions(b *broker.Broker) int {
